@@ -6,6 +6,7 @@ package durablestream
 import (
 	"net/http"
 	"net/http/httptest"
+	"regexp"
 
 	dsl "github.com/ahimsalabs/durable-streams-go/durablestream"
 	"github.com/ahimsalabs/durable-streams-go/durablestream/memorystorage"
@@ -15,13 +16,23 @@ var (
 	vmDSFailRead = -1
 	vmDSReads    = 0
 	vmDSChunked  = false
+	vmDSStrict   = false
 )
+
+var vdsIssued = regexp.MustCompile(`^([0-9]{10}|-1|)$`)
 
 // vdsServer starts a fresh durable-streams server and returns its base URL.
 func vdsServer(name string) string {
 	handler := dsl.NewHandler(memorystorage.New(), nil)
 	mux := http.NewServeMux()
-	mux.Handle("/v1/stream/", http.StripPrefix("/v1/stream/", handler))
+	mux.Handle("/v1/stream/", http.StripPrefix("/v1/stream/", http.HandlerFunc(func(w http.ResponseWriter, r *http.Request) {
+		// a strict server: offsets it did not issue are a bad request
+		if vmDSStrict && !vdsIssued.MatchString(r.URL.Query().Get("offset")) {
+			http.Error(w, "invalid offset", http.StatusBadRequest)
+			return
+		}
+		handler.ServeHTTP(w, r)
+	})))
 	srv := httptest.NewServer(mux)
 	return srv.URL + "/v1/stream"
 }
